@@ -43,7 +43,7 @@ func c61(c *Ctx) {
 		if !ok {
 			return false
 		}
-		for _, a := range ci.Common().Args {
+		for _, a := range BaselineArgs(ci.Common()) {
 			if Term(a) == "$0" {
 				return true
 			}
